@@ -1871,6 +1871,9 @@ func (ts *Service) updateAllAssociatedTasks(old, new Template, taskIds []string)
 		return fmt.Errorf("failed to parse new tickscript: %v", err)
 	}
 
+	// The dbrps each task had before the update, needed to rollback
+	originalDBRPs := make(map[string][]DBRP, len(taskIds))
+
 	// Setup rollback function
 	defer func() {
 		if i == len(taskIds) {
@@ -1890,14 +1893,8 @@ func (ts *Service) updateAllAssociatedTasks(old, new Template, taskIds []string)
 			task.TemplateID = old.ID
 			task.TICKscript = old.TICKscript
 			task.Type = old.Type
-			if len(dbrpsFromProgram(oldPn)) > 0 {
-				task.DBRPs = []DBRP{}
-				for _, dbrp := range dbrpsFromProgram(oldPn) {
-					task.DBRPs = append(task.DBRPs, DBRP{
-						Database:        dbrp.Database,
-						RetentionPolicy: dbrp.RetentionPolicy,
-					})
-				}
+			if dbrps, ok := originalDBRPs[taskId]; ok {
+				task.DBRPs = dbrps
 			}
 			if err := ts.tasks.Replace(task); err != nil {
 				ts.diag.Error("error rolling back associated task", err, keyvalue.KV("task", taskId))
@@ -1932,6 +1929,7 @@ func (ts *Service) updateAllAssociatedTasks(old, new Template, taskIds []string)
 		task.TemplateID = new.ID
 		task.TICKscript = new.TICKscript
 		task.Type = new.Type
+		originalDBRPs[taskId] = task.DBRPs
 
 		if len(dbrpsFromProgram(oldPn)) > 0 || len(dbrpsFromProgram(newPn)) > 0 {
 
